@@ -1,0 +1,14 @@
+//go:build verif
+
+package pcs
+
+// VerifQE exposes the package-private QE report certification data of a
+// decoded ECDSA-P256 quote signature (read-only accessor for the C16 check).
+func (qs *QuoteSignatureECDSA_P256) VerifQE() *CertificationData_QEReport {
+	return qs.qe
+}
+
+// VerifReportBody exposes the package-private report body of a decoded quote.
+func (q *Quote) VerifReportBody() ReportBody {
+	return q.reportBody
+}
